@@ -71,7 +71,12 @@ def ok_rows(g, max_visits):
     return rows, out
 
 
+FACTS = None        # the fact base of the run in progress (for evaluated constants the grammar functions look up)
+
+
 def check_writer(rep, facts, name, grammar, min_iter_rows):
+    global FACTS
+    FACTS = facts
     b = facts.body(name)
     g = ieg.IEG(facts, b, inline_filter=lambda x: False)
     rows, oks = ok_rows(g, 3)
@@ -146,7 +151,14 @@ def headers_grammar(toks, row):
     for (nm, args, n) in fills:
         dst, src = ir.peel(args[0]), ir.peel(args[1])
         rg = [x for x in ir.walk(dst) if x[0] == 'agg' and x[2].startswith("std::ops::Range")]
-        if rg and {k: cv(v) for k, v in rg[0][3]} == {"start": 8, "end": 11} and any(
+        bounds = {k: cv(v) for k, v in rg[0][3]} if rg else None
+        if bounds is None:
+            # the range as a named constant: its evaluated memory image (two little-endian usize)
+            for x in ir.walk(dst):
+                c = FACTS.consts.get(x[1]) if x[0] == 'constdef' and FACTS is not None else None
+                if c and str(c.get("ty", "")).replace(" ", "").startswith("std::ops::Range<usize>") and len(c.get("bytes", [])) == 16:
+                    bounds = {"start": int.from_bytes(bytes(c["bytes"][:8]), "little"), "end": int.from_bytes(bytes(c["bytes"][8:]), "little")}
+        if bounds == {"start": 8, "end": 11} and any(
                 x[0] == 'call' and x[1].endswith("StatusCode::as_str") for x in ir.walk(src)):
             okfill = True
     if not okfill:
